@@ -779,6 +779,13 @@ func init() {
 		c.assumeHere( tAnd(tImp(fails, ioErr(e)), tImp(tNot(fails), tEq(e, "0"))))
 		return Tup{[]Val{o, scInt(e)}}, st1
 	})
+	reg("strconv.Itoa", "itoa: the decimal rendering of an int (what %v / %d print); inverse of Atoi", func(x *Exec, n *ast.CallExpr, recv ast.Expr, st *State) (Val, *State) {
+		v, st1 := x.eval(n.Args[0], st)
+		c := x.c
+		c.used["itoa"] = true
+		c.usesStr = true
+		return Sc{app("itoa", v.(Sc).T), SStr}, st1
+	})
 	reg("strconv.Atoi", "atoi: parses a decimal integer; error (non-nil, value 0) iff !atoiOK(s); inverse of Itoa", func(x *Exec, n *ast.CallExpr, recv ast.Expr, st *State) (Val, *State) {
 		sv, st1 := x.eval(n.Args[0], st)
 		c := x.c
